@@ -371,6 +371,12 @@ for _p in ("C05", "C06", "C04"):
 PROPS["C09"]["extras"] = PROPS["C09"].get("extras", []) + [{"component": "persist", "timeout": 600}]
 PROPS["C09"]["rule"] += (" extra (beyond the sequential quantifier): 90 (quick) / 900 (thorough) rounds of 2-6 goroutines writing their own keys through one persister (DB, SerialDB, sharded over SerialDB; "
                          "MaxBatchSize 1-5 so that size-triggered flushes overlap), then Close and a fresh persister: Get/Has/RangeKeys give exactly the last acknowledged write of every key.")
+# the eviction gate (doEviction's flag + mutex protocol) as an interleaving model: Props/C14b.v
+PROPS["C14"]["coq_props"] = ["C14", "C14b"]
+PROPS["C06"]["coq_props"] = ["C06", "C14b"]
+PROPS["C06"]["assumptions"] = PROPS["C06"]["assumptions"] + [
+    "the eviction gate (isEvictionInProgress + evictionMutex) is PROVED never to be left closed, for any number of threads and any schedule, on a small-step model of doEviction "
+    "(Conc/EvictionGate.v, Props/C14b.v); that the Go code refines this model is validated by the stress extra, not proved"]
 PROPS["C16"]["coq_props"] = ["C16", "C16b"]
 PROPS["C16"]["assumptions"] = [a for a in PROPS["C16"]["assumptions"] if not a.startswith("LRU / SizeLRU / FIFOSharded satisfy cacher_laws")] + [
     "cacher_laws are PROVED for the models of the sized LRU, the plain LRU, the lruCache wrapper and the FIFO sharded cache (Props/C16b.v); those models are tied to the Go caches by the C15/C20 checks"]
